@@ -25,6 +25,10 @@ META = {
         "QVerif.Pipeline.layout_invariance",
         "QVerif.Pipeline.op_layout_invariance",
         "QVerif.Pipeline.mix_layout_invariance",
+        "QVerif.Pipeline.expval_layout_invariance",
+        "QVerif.Pipeline.opExpval_layout_invariance",
+        "QVerif.Pipeline.amp_place",
+        "QVerif.Pipeline.place_injective",
         "QVerif.Pipeline.initial_layout_is_wrong",
         "QVerif.Pipeline.no_layout_is_wrong",
         "QVerif.Cvar.cvar_is_min",
@@ -37,9 +41,11 @@ META = {
     "wrapper's internals are C06's theorems); (2) for all three evaluator kinds, value i is the objective of (initial state o circuit i) with parameter vector i — every "
     "batch position (…_evaluate_spec/_at; the objective from counts is C14's model); (3) the estimator wrapper's re-layout: a Pauli operator laid out with the FINAL index "
     "layout of the transpiled circuit has the same value on the physically placed state, for every injective layout with ancillas, every Pauli operator and every "
-    "computational-basis state and mixture (layout_invariance, op_/mix_); kernel-checked witnesses that the initial layout or no re-layout is wrong. NOT proved: (3) for "
-    "superposition states (needs the unitary representation of qubit permutations), that Qiskit pass managers are semantics preserving, and the primitives' own physics — "
-    "these are parameters/assumptions of the model; on them the check relies on the oracle (exact fake primitives vs Statevector).",
+    "computational-basis state and mixture (layout_invariance, op_/mix_) AND for every pure state given by finitely many Gaussian-rational amplitudes — "
+    "<psi'|P'|psi'> = <psi|P|psi> for every Pauli string incl. X and Y (expval_layout_invariance, opExpval_…; phases i^k and bit flips commute with the placement, "
+    "place is injective); kernel-checked witnesses that the initial layout or no re-layout is wrong. NOT proved: that Qiskit pass managers are semantics preserving (the "
+    "transpiled circuit prepares the placed state), irrational amplitudes (density), and the primitives' own physics — these are parameters/assumptions of the model; on "
+    "them the check relies on the oracle (exact fake primitives vs Statevector).",
     "level_note": "Trusted: Lean kernel + standard axioms; Qiskit (transpiler, Statevector, apply_layout), the fake exact primitives (harness/fakes.py); the tie between model "
     "and code is the correspondence: submitted observable, value on classical circuits, physical placement, pubs reaching the primitive, batch slices.",
     "rule": "cases = evaluator kind (operator+estimator with arbitrary Pauli operators, operator+sampler with diagonal operators and alpha in {1, 1/2, 1/4}, bitstring "
